@@ -35,4 +35,5 @@ let () =
   | _ :: "encode" :: args -> M_codec.mode_encode args
   | _ :: "ctor" :: args -> M_codec.mode_ctor args
   | _ :: "conn" :: args -> M_conn.mode_conn args
+  | _ :: "lin" :: args -> M_lin.mode_lin args
   | _ -> prerr_endline "usage: modelrun <mode> [args]"; exit 2
